@@ -206,4 +206,5 @@ func trunc(b []byte) string {
 	}
 	return string(b)
 }
+
 var _ = fdlimit
